@@ -629,6 +629,7 @@ def run(ctx):
         own_ = Own(ctx, P, cg)
         c07.clause1_own(ctx, P, cg, own_)
         c07.clause13_freed_field_is_reassigned(ctx, P)
+        c07.clause16_handed_over_items(ctx, P)
         clause1_snprintf(ctx, P)
         c16.clause6_slots(ctx, P, cg)
         c12.clause2_callbacks(ctx, P, cg)
